@@ -319,6 +319,20 @@ Theorem slice_slice_vec_spec : forall arr r1 r2, length r2 = length r1 ->
 Proof. exact SliceRangeProofs.slice_slice_vec_spec. Qed.
 Print Assumptions slice_slice_vec_spec.
 
+(* names of the bounds of a slice parameter s[n0 .. n1, n2 .. n3, ..] (ID_DIM_SLICE): the lower
+   name of every dimension is 0, the upper name is the last valid index of that dimension; of a
+   range parameter: the bounds themselves *)
+Theorem slice_dim_name_spec : forall r d,
+  (d < length r)%nat ->
+  let '(a, b) := nth d r (0, 0) in
+  is_s32 (b - a) -> is_s32 (a - b) ->
+  slice_dim_name (flatten r) (d * 2) = 0 /\
+  slice_dim_name (flatten r) (d * 2 + 1) = range_len a b - 1 /\
+  range_dim_name (flatten r) (d * 2) = a /\
+  range_dim_name (flatten r) (d * 2 + 1) = b.
+Proof. exact SliceRangeProofs.slice_dim_name_spec. Qed.
+Print Assumptions slice_dim_name_spec.
+
 Example vec_layout_example :
   flatten [(5, 1); (10, 13); (7, 2)] = [5; 1; 10; 13; 7; 2] /\
   unflatten [5; 1; 10; 13; 7; 2] = [(5, 1); (10, 13); (7, 2)] /\
